@@ -306,7 +306,7 @@ pub struct MyUuid;
 '''
 
 
-def expand_macro(cases_, feats_by_schema, builder_tokens, tier):
+def expand_macro(cases_, feats_by_schema, builder_tokens, tier, extra_env=None):
     """one crate; per case a module with import_types!(..) and a sibling module with the builder's tokens; rustc expands both"""
     d = os.path.join(WORK, "batch", "c15_expand_" + tier)
     if os.path.exists(d):
@@ -351,6 +351,10 @@ def expand_macro(cases_, feats_by_schema, builder_tokens, tier):
     env = dict(CARGO_ENV)
     env["CARGO_TARGET_DIR"] = TARGET_REPO
     env["RUSTC_BOOTSTRAP"] = "1"
+    if extra_env:
+        env.update(extra_env)
+        # the expansion must really re-run under the new environment
+        open(os.path.join(d, "src", "lib.rs"), "a").write("\n// env %s\n" % json.dumps(extra_env, sort_keys=True))
     p = subprocess.run(["cargo", TOOLCHAIN, "rustc", "--offline", "--lib", "--", "-Zunpretty=expanded"], cwd=d, env=env, stdout=subprocess.PIPE, stderr=subprocess.PIPE)
     text = p.stdout.decode("utf-8", errors="replace")
     err = p.stderr.decode("utf-8", errors="replace")
